@@ -55,8 +55,10 @@ def run(ctx):
   ctx.borrow(c11.rule_comb, "R-C08-GUESS")
   ctx.borrow(c11.rule_formula, "R-C08-GUESS", lambda r: r.where.endswith(("BatchDouble", "BatchAddList")))
   ctx.borrow(c11.rule_dispatch, "R-C08-GUESS", lambda r: r.where.endswith(("BatchDouble", "BatchAddList")))
+  from . import c17
+  ctx.borrow(c17.rule_stateless, "R-C08-GUESS", lambda r: r.where.endswith("BatchMultiplyG"))     # the comb memo must be per curve (k*G of another curve accepts / rejects wrongly)
   ctx.borrow(c09.rule_feed, "R-C08-FEED")
-  ctx.expect("R-C08-GUESS", 4, "comb obligations of BatchMultiplyG")
+  ctx.expect("R-C08-GUESS", 9, "comb obligations of BatchMultiplyG, batched formulas, per-curve memo")
   ctx.expect("R-C08-FEED", 4, "ECDSAValues obligations")
   ctx.expect("R-C08-OWN", 3, "BiasedBaseCheck, CheckCr50U2f, CheckIssuerKey")
   ctx.expect("R-C08-GROUP", 4, "two checks x (partition, issuer grouping)")
@@ -840,7 +842,7 @@ def rule_extract(ctx):
         nz = any(fc[0] == "cmp" and fc[1] == "NotEq" and isinstance(fc[2], Poly) and fc[2] == sym.mk("mod", v0, n) and as_poly(fc[3]).is_zero() for fc in newf)
         added = any(w.events[i_].kind == "mutate" and w.events[i_].data["method"] == "add" for i_ in s_.trace[since:])
         if nz != added:
-          probs.append("a row is used exactly when v[0] % n != 0 - this path %s" % ("skips a usable row" if nz else "inverts a row with v[0] == 0 (mod n)"))
+          probs.append("a row is used exactly when v[0] %% n != 0 - this path %s" % ("skips a usable row" if nz else "inverts a row with v[0] == 0 (mod n)"))
       rets = [t_ for t_ in w.terminals if t_[0] == "return"]
       acc = [nm for nm, av in vis["after_env"].items() if isinstance(av, Poly) and adds and isinstance(vis["head"].env.get(nm), Poly) and as_poly(adds[0].data["recv"]) == vis["head"].env[nm]]
       if not acc or not all(isinstance(t_[1], Poly) and vis["after_env"][acc[0]] in [t_[1]] + [as_poly(x) for a_ in t_[1].all_atoms() for x in a_.args if isinstance(x, Poly)] for t_ in rets):
